@@ -137,6 +137,10 @@ NumCases == {
   One(Ap("<=", <<SPlus(r, Dc(25, 10)), Ap("*", <<Dc(5, 10), u>>)>>), "decimals"),
   One(Ap("<", <<Ap("/", <<Nm(1), Nm(3)>>), r>>), "rational-constant"),
   One(Ap("<", <<Ap("-", <<Ap("/", <<Nm(1), Nm(3)>>)>>), r>>), "negative-rational-constant"),
+  \* ... exactly: three thirds are one, seven times two sevenths is two (a quotient folded through a float is not)
+  One(Eq(Ap("*", <<Ap("/", <<Nm(1), Nm(3)>>), Dc(30, 10)>>), Dc(10, 10)), "rational-constant-exact-thirds"),
+  One(Ap("not", <<Lt(Ap("*", <<Dc(70, 10), Ap("/", <<Nm(2), Nm(7)>>)>>), Dc(20, 10))>>), "rational-constant-exact-sevenths"),
+  One(Eq(Ap("+", <<Ap("/", <<Nm(1), Nm(3)>>), Ap("/", <<Nm(1), Nm(6)>>)>>), Ap("/", <<Nm(1), Nm(2)>>)), "rational-constants-sum-exact"),
   One(Ap("<", <<Ap("/", <<Dc(10, 10), Dc(40, 10)>>), r>>), "rational-decimal-constant"),
   One(Ap("<", <<Ap("-", <<Nm(5)>>), x>>), "negative-int-constant"),
   One(Ap("<", <<Ap("-", <<x>>), Ap("-", <<x, y, z>>)>>), "unary-and-nary-minus"),
